@@ -194,7 +194,7 @@ Definition triggs_masked_value (g1 g2 : R) (Rv : list R) (J : list (list R)) : b
   let se := sqrt g1 in
   let beta := triggs_beta g1 g2 x in
   let c := (1 - beta) / x in
-  (map (fun _ => se / beta) Rv,
+  (scale_vec (se / beta) Rv,
    map (fun rj : R * list R =>
           mapi_from (fun l s => s - c * (fst rj * dot Rv (col (map (scale_vec se) J) l))) 0 (snd rj))
        (combine Rv (map (scale_vec se) J))).
@@ -260,22 +260,14 @@ Proof.
   rewrite Hk, Hg. field. auto.
 Qed.
 
-(* the corrected residual on the mask drops R: every component is sqrt(g1) / beta *)
-Lemma triggs_masked_residual (g1 g2 : R) Rv J :
-  fst (triggs_masked_value g1 g2 Rv J) = map (fun _ => sqrt g1 / triggs_beta g1 g2 (dot Rv Rv)) Rv.
-Proof. reflexivity. Qed.
-
-(* what the docstring (and Triggs' paper) prescribe on the mask: R' = sqrt(g1) / (1 - alpha) * R;
-   with it the gradient identity holds - i.e. `sR[M] = se[M] / (1 - alpha) * R[M]` is the repair *)
-Definition triggs_masked_documented (g1 g2 : R) (Rv : list R) (J : list (list R)) : blockR :=
-  (scale_vec (sqrt g1 / triggs_beta g1 g2 (dot Rv Rv)) Rv, snd (triggs_masked_value g1 g2 Rv J)).
-
-Lemma triggs_documented_grad (g1 g2 : R) Rv J p l : 0 < g1 -> 0 < g2 -> dot Rv Rv <> 0 ->
+(* gradient identity on the mask: J'^T R' = rho' J^T R *)
+Lemma triggs_masked_grad (g1 g2 : R) Rv J p l : 0 < g1 -> 0 < g2 -> dot Rv Rv <> 0 ->
   wf_block p (Rv, J) -> (l < p)%nat ->
-  JtR (triggs_masked_documented g1 g2 Rv J) l = g1 * JtR (Rv, J) l.
+  JtR (triggs_masked_value g1 g2 Rv J) l = g1 * JtR (Rv, J) l.
 Proof.
-  intros H1 H2 Hx [Hlen HJ] Hl. cbn [fst snd] in *. unfold JtR, triggs_masked_documented. cbn [fst snd].
+  intros H1 H2 Hx [Hlen HJ] Hl. cbn [fst snd] in *. unfold JtR. cbn [fst snd].
   rewrite (triggs_masked_col g1 g2 Rv J p l Hl HJ).
+  unfold triggs_masked_value. cbv zeta. cbn [fst].
   rewrite dot_corr_scaled by (rewrite col_length; auto).
   pose proof (dot_self_nonneg Rv) as Hx0.
   pose proof (triggs_beta_ge1 g1 g2 (dot Rv Rv) H1 H2 Hx0) as Hb.
@@ -378,17 +370,17 @@ Qed.
 Lemma triggs_defined (rho1 rho2 : R -> R) (bs : list blockR) :
   (forall b, In b bs -> 0 <= rho1 (sqnorm b)) ->
   (forall b, In b bs -> triggs_mask (sqnorm b) (rho2 (sqnorm b)) = true -> 0 < rho1 (sqnorm b)) ->
-  exists bs', triggs true rho1 rho2 bs = Some bs'.
+  exists bs', triggs rho1 rho2 bs = Some bs'.
 Proof.
   intros H0 H1. unfold triggs. apply mapM_some. intros b Hb. apply triggs_block_defined; auto.
 Qed.
 
-Lemma triggs_hess (graph : bool) (rho1 rho2 : R -> R) (p : nat) (bs bs' : list blockR) :
-  triggs graph rho1 rho2 bs = Some bs' -> Forall (wf_block p) bs ->
+Lemma triggs_hess (rho1 rho2 : R -> R) (p : nat) (bs bs' : list blockR) :
+  triggs rho1 rho2 bs = Some bs' -> Forall (wf_block p) bs ->
   forall l m, (l < p)%nat -> (m < p)%nat ->
   bsum (fun b => JtJ b l m) bs' = triggs_hess_rhs rho1 rho2 bs l m.
 Proof.
-  intros H Hwf l m Hl Hm. unfold triggs in H. destruct graph; [|discriminate].
+  intros H Hwf l m Hl Hm. unfold triggs in H.
   unfold triggs_hess_rhs.
   apply (mapM_bsum _ (fun b => JtJ b l m)
            (fun b => rho1 (sqnorm b) * JtJ b l m
@@ -401,19 +393,45 @@ Qed.
 (* Triggs = FastTriggs when no block is masked (rho'' <= 0 or R_i = 0 everywhere) *)
 Lemma triggs_eq_fasttriggs (rho1 rho2 : R -> R) (bs : list blockR) :
   (forall b, In b bs -> triggs_mask (sqnorm b) (rho2 (sqnorm b)) = false) ->
-  triggs true rho1 rho2 bs = fasttriggs rho1 bs.
+  triggs rho1 rho2 bs = fasttriggs rho1 bs.
 Proof.
   intros H. unfold triggs, fasttriggs. apply mapM_ext_in. intros b Hb.
   apply triggs_block_off_mask. apply (H b Hb).
 Qed.
 Lemma triggs_grad_off_mask (rho1 rho2 : R -> R) (bs bs' : list blockR) :
   (forall b, In b bs -> triggs_mask (sqnorm b) (rho2 (sqnorm b)) = false) ->
-  triggs true rho1 rho2 bs = Some bs' ->
+  triggs rho1 rho2 bs = Some bs' ->
   forall l, bsum (fun b => JtR b l) bs' = robust_grad rho1 bs l.
 Proof. intros HM H. rewrite triggs_eq_fasttriggs in H by auto. now apply fasttriggs_grad. Qed.
 
-(* ---- refutation of the gradient identity on the mask: rho(x) = x^2, R = [2], J = [[1]].
-   Triggs returns R' = [sqrt 8 / sqrt 3], J' = [[sqrt 8 * sqrt 3]]: J'^T R' = 8, robust gradient = 16 *)
+(* gradient identity, one block, any case; and for whole tensors, any kernel (positive curvature included) *)
+Lemma triggs_block_grad (g1 g2 : R) Rv J b' p l : triggs_block g1 g2 Rv J = Some b' ->
+  wf_block p (Rv, J) -> (l < p)%nat -> JtR b' l = g1 * JtR (Rv, J) l.
+Proof.
+  intros H Hwf Hl. destruct (triggs_mask (dot Rv Rv) g2) eqn:HM.
+  - pose proof HM as HM'. apply triggs_mask_true in HM' as [Hx H2].
+    destruct (Rlt_dec g1 0) as [Hn|Hn]; [rewrite triggs_block_none in H by auto; discriminate|].
+    destruct (Req_EM_T g1 0) as [H0|H0].
+    + exfalso. unfold triggs_block in H. cbv zeta in H. rewrite HM in H. subst g1.
+      cbn [ltb eqb NumR zero] in H.
+      replace (Rltb 0 0) with false in H by (symmetry; apply Rltb_false; lra).
+      replace (Reqb 0 0) with true in H by (symmetry; now apply Reqb_true). discriminate.
+    + assert (H1 : 0 < g1) by lra. rewrite triggs_block_on_mask in H by auto. inversion H; subst.
+      now apply (triggs_masked_grad g1 g2 Rv J p l).
+  - rewrite triggs_block_off_mask in H by auto. now apply fasttriggs_block_grad.
+Qed.
+Lemma triggs_grad (rho1 rho2 : R -> R) (p : nat) (bs bs' : list blockR) :
+  triggs rho1 rho2 bs = Some bs' -> Forall (wf_block p) bs ->
+  forall l, (l < p)%nat -> bsum (fun b => JtR b l) bs' = robust_grad rho1 bs l.
+Proof.
+  intros H Hwf l Hl. unfold triggs in H. unfold robust_grad.
+  apply (mapM_bsum _ (fun b => JtR b l) (fun b => rho1 (sqnorm b) * JtR b l) bs bs' H).
+  intros [Rv J] b' Hin Hb. cbn [fst snd] in Hb. rewrite Forall_forall in Hwf.
+  apply (triggs_block_grad _ _ Rv J b' p l Hb (Hwf _ Hin) Hl).
+Qed.
+
+(* ---- history: before 298dcfc the gradient identity failed on the mask: rho(x) = x^2, R = [2], J = [[1]].
+   Triggs returned R' = [sqrt 8 / sqrt 3], J' = [[sqrt 8 * sqrt 3]]: J'^T R' = 8, robust gradient = 16 *)
 Definition sq_rho (x : R) := x * x.
 Definition sq_rho1 (x : R) := 2 * x.
 Definition sq_rho2 (_ : R) := 2.
@@ -422,24 +440,27 @@ Proof. split; unfold sq_rho, sq_rho1, sq_rho2; auto_derive; try exact I; ring. Q
 
 Definition refute_blocks : list blockR := [([2], [[1]])].
 Lemma refute_triggs_value :
-  triggs true sq_rho1 sq_rho2 refute_blocks = Some [([sqrt 8 / sqrt 3], [[sqrt 8 * sqrt 3]])].
+  triggs_old true sq_rho1 sq_rho2 refute_blocks = Some [([sqrt 8 / sqrt 3], [[sqrt 8 * sqrt 3]])].
 Proof.
-  unfold triggs, refute_blocks. cbn [mapM fst snd]. unfold sqnorm. cbn [fst snd dot]. rnum.
+  unfold triggs_old, refute_blocks. cbn [mapM fst snd]. unfold sqnorm. cbn [fst snd dot]. rnum.
   replace (2 * 2 + 0) with 4 by ring. unfold sq_rho1, sq_rho2. replace (2 * 4) with 8 by ring.
   assert (HM : triggs_mask (dot [2] [2]) 2 = true) by (apply triggs_mask_true; cbn; rnum; lra).
-  rewrite triggs_block_on_mask by (auto; lra).
+  unfold triggs_block_old. rewrite triggs_block_on_mask by (auto; lra). rewrite HM.
   unfold triggs_masked_value, triggs_beta. cbn [dot map combine mapi_from fst snd col scale_vec nth]. rnum.
   replace (2 * 2 + 0) with 4 by ring. replace (1 + 2 * 4 * 2 / 8) with 3 by field.
-  assert (H3 : 0 < sqrt 3) by (apply sqrt_lt_R0; lra).
+  assert (Hmax : maxF 0 3 = 3).
+  { unfold maxF. cbn [ltb NumR]. replace (Rltb 0 3) with true; [reflexivity|]. symmetry. apply Rltb_true. lra. }
+  rewrite Hmax. assert (H3 : 0 < sqrt 3) by (apply sqrt_lt_R0; lra).
+  replace (1 - (1 - sqrt 3)) with (sqrt 3) by ring.
   replace (sqrt 8 * 1 - (1 - sqrt 3) / 4 * (2 * (2 * (sqrt 8 * 1) + 0))) with (sqrt 8 * sqrt 3) by field.
   reflexivity.
 Qed.
-Lemma triggs_grad_refuted :
+Lemma triggs_old_grad_refuted :
   exists (rho rho1 rho2 : R -> R) (bs bs' : list blockR) (l : nat),
     (forall x, is_derive rho x (rho1 x) /\ is_derive rho1 x (rho2 x)) /\
     Forall (wf_block 1) bs /\ (l < 1)%nat /\
     (forall b, In b bs -> triggs_mask (sqnorm b) (rho2 (sqnorm b)) = true) /\
-    triggs true rho1 rho2 bs = Some bs' /\
+    triggs_old true rho1 rho2 bs = Some bs' /\
     bsum (fun b => JtR b l) bs' = 8 /\ robust_grad rho1 bs l = 16.
 Proof.
   exists sq_rho, sq_rho1, sq_rho2, refute_blocks, [([sqrt 8 / sqrt 3], [[sqrt 8 * sqrt 3]])], 0%nat.
@@ -455,9 +476,17 @@ Proof.
     replace (sqrt 8 * sqrt 3 * (sqrt 8 / sqrt 3) + 0 + 0) with (sqrt 8 * sqrt 8) by (field; lra). exact H8.
   - unfold robust_grad, refute_blocks, JtR, sqnorm, sq_rho1. cbn. rnum. ring.
 Qed.
+(* the same witness on the repaired code satisfies the identity (regression) *)
+Lemma refute_witness_now (bs' : list blockR) : triggs sq_rho1 sq_rho2 refute_blocks = Some bs' ->
+  bsum (fun b => JtR b 0%nat) bs' = 16.
+Proof.
+  intros H. rewrite (triggs_grad sq_rho1 sq_rho2 1 refute_blocks bs' H); [|
+    constructor; [|constructor]; split; [reflexivity|]; constructor; [reflexivity|constructor] | lia].
+  unfold robust_grad, refute_blocks, JtR, sqnorm, sq_rho1. cbn. rnum. ring.
+Qed.
 
-(* ---- Triggs cannot be used with a kernel whose slope is constant in the autograd graph *)
-Lemma triggs_scale_raises (bs : list blockR) (d p2 : R) : triggs_kernel KScale d p2 bs = None.
+(* ---- history: before af4d69c Triggs could not be used with a kernel whose slope is constant in the graph *)
+Lemma triggs_old_scale_raises (bs : list blockR) (d p2 : R) : triggs_kernel_old KScale d p2 bs = None.
 Proof. reflexivity. Qed.
 
 (* ====================================================================== kernels *)
@@ -492,16 +521,17 @@ Proof.
   symmetry. apply Reqb_false. pose proof (sq_pos_of_ne p1 Hp). lra.
 Qed.
 
-(* negative input is rejected by every kernel but Scale *)
-Lemma kernel_rejects_negative k p1 p2 x : k <> KScale -> x < 0 -> kernel k p1 p2 x = None.
+(* negative input is rejected by every kernel, for all parameters *)
+Lemma kernel_rejects_negative k p1 p2 x : x < 0 -> kernel k p1 p2 x = None.
 Proof.
-  intros Hk Hx. unfold kernel. destruct (kernel_ok k p1 p2); cbn [negb]; [|reflexivity].
-  destruct k; try congruence; cbn [leb NumR zero];
+  intros Hx. unfold kernel. destruct (kernel_ok k p1 p2); cbn [negb]; [|reflexivity].
+  destruct k; cbn [leb NumR zero];
     replace (Rleb 0 x) with false by (symmetry; now apply Rleb_false); reflexivity.
 Qed.
-Lemma scale_accepts_negative : kernel_params KScale 1 0 /\ kernel KScale 1 0 (-1) = Some (-1).
+(* history: before e6f8307 Scale accepted it *)
+Lemma scale_old_accepts_negative : kernel_params KScale 1 0 /\ kernel_old KScale 1 0 (-1) = Some (-1).
 Proof.
-  split; [cbn; lra|]. unfold kernel. rewrite (kernel_ok_params KScale 1 0) by (cbn; lra).
+  split; [cbn; lra|]. unfold kernel_old. rewrite (kernel_ok_params KScale 1 0) by (cbn; lra).
   cbn [negb]. unfold scale_f. rnum. f_equal. ring.
 Qed.
 
@@ -836,11 +866,10 @@ Proof.
   intros Hp. apply fasttriggs_defined. intros b _. apply kernel_d1_nonneg; auto.
   unfold sqnorm. apply dot_self_nonneg.
 Qed.
-Lemma triggs_kernel_eq_fasttriggs k p1 p2 (bs : list blockR) : kernel_params k p1 p2 -> k <> KScale ->
+Lemma triggs_kernel_eq_fasttriggs k p1 p2 (bs : list blockR) : kernel_params k p1 p2 ->
   triggs_kernel k p1 p2 bs = fasttriggs_kernel k p1 p2 bs.
 Proof.
-  intros Hp Hk. unfold triggs_kernel, fasttriggs_kernel.
-  replace (kernel_d2_graph k) with true by (destruct k; auto; congruence).
+  intros Hp. unfold triggs_kernel, fasttriggs_kernel.
   apply triggs_eq_fasttriggs. intros b _. apply triggs_mask_false. right.
   apply kernel_d2_nonpos; auto. unfold sqnorm. apply dot_self_nonneg.
 Qed.
@@ -926,19 +955,36 @@ Proof.
   intros x Hx. now apply kernel_d1_correct.
 Qed.
 
-Lemma triggs_scale_refuted :
+(* Triggs with the autograd contract spelled out; and with the built-in kernels *)
+Lemma triggs_grad_derive (rho rho1 rho2 : R -> R) (p : nat) (bs bs' : list blockR) :
+  (forall x, 0 <= x -> is_derive rho x (rho1 x)) -> triggs rho1 rho2 bs = Some bs' ->
+  Forall (wf_block p) bs -> forall l, (l < p)%nat ->
+  bsum (fun b => JtR b l) bs' = robust_grad (Derive rho) bs l.
+Proof.
+  intros Hc H Hwf l Hl. rewrite (triggs_grad rho1 rho2 p bs bs' H Hwf l Hl). apply robust_grad_ext.
+  intros x Hx. symmetry. apply is_derive_unique. now apply Hc.
+Qed.
+Lemma triggs_kernel_grad k p1 p2 (bs : list blockR) : kernel_params k p1 p2 ->
+  exists bs', triggs_kernel k p1 p2 bs = Some bs' /\ fasttriggs_kernel k p1 p2 bs = Some bs' /\
+    forall l, bsum (fun b => JtR b l) bs' = robust_grad (Derive (fun t => kernel_f k p1 p2 t)) bs l.
+Proof.
+  intros Hp. destruct (fasttriggs_kernel_grad k p1 p2 bs Hp) as [bs' [H1 H2]]. exists bs'.
+  rewrite triggs_kernel_eq_fasttriggs by auto. auto.
+Qed.
+
+Lemma triggs_old_scale_refuted :
   exists (d : R) (bs : list blockR), kernel_params KScale d 0 /\ Forall (wf_block 1) bs /\
-    (exists bs', fasttriggs_kernel KScale d 0 bs = Some bs') /\ triggs_kernel KScale d 0 bs = None.
+    (exists bs', fasttriggs_kernel KScale d 0 bs = Some bs') /\ triggs_kernel_old KScale d 0 bs = None.
 Proof.
   exists 1, [([1], [[1]])]. split; [cbn; lra|]. split.
   { constructor; [|constructor]. split; [reflexivity|]. constructor; [reflexivity|constructor]. }
   split; [apply fasttriggs_kernel_defined; cbn; lra|reflexivity].
 Qed.
 
-Lemma scale_rejects_negative_refuted :
-  exists d x y, kernel_params KScale d 0 /\ x < 0 /\ kernel KScale d 0 x = Some y.
+Lemma scale_old_rejects_negative_refuted :
+  exists d x y, kernel_params KScale d 0 /\ x < 0 /\ kernel_old KScale d 0 x = Some y.
 Proof.
-  exists 1, (-1), (-1). destruct scale_accepts_negative as [H1 H2].
+  exists 1, (-1), (-1). destruct scale_old_accepts_negative as [H1 H2].
   split; [exact H1|]. split; [lra|exact H2].
 Qed.
 
